@@ -8,4 +8,5 @@ if ! git apply "$P"; then echo "APPLY-FAILED $P"; exit 8; fi
 cd /verif && ./check "$ID" "$TIER" 2>&1 | grep -E "^\[|VIOLATION|signature|KNOWN|INCONCLUSIVE|HARNESS" | cut -c1-220 | head -12
 RC=${PIPESTATUS[0]}
 git -C /repo checkout -- . 
+(cd /verif/harness && cargo build --offline >/dev/null 2>&1)
 echo "=> exit $RC ($P on $ID $TIER)"
